@@ -39,8 +39,75 @@ def configs(ctx):
     return out
 
 
+def sweep_structure(ctx):
+    """The sweep in run.py must be a FIXED composition of the moves (C04_sweep_composition_invariant applies to a fixed
+    composition): stub samplers with scripted outputs (same object / equal copy / different tree) are passed to the real
+    _run_burnin and _run_main_sampler; the sequence of sampler invocations must not depend on what the samplers return."""
+    import contextlib
+    import io
+    import itertools
+
+    import numpy as np
+
+    import phyclone.run as R
+    from phyclone.utils import Timer
+    from ..kernels import make_tree_dist
+    from ..trees import all_specs, build_tree, make_data, rational_values
+
+    data = make_data(rational_values(ctx.rng, 3, 1, 3), outlier_prob=0.0)
+    trees = [build_tree(sp, data) for sp in all_specs(range(3))[:6]]
+
+    class Stub:
+        def __init__(self, name, log, mode):
+            self.name, self.log, self.mode, self.k = name, log, mode, 0
+
+        def sample_tree(self, tree):
+            self.log.append(self.name)
+            self.k += 1
+            if self.mode == "same":
+                return tree
+            if self.mode == "copy":
+                return tree.copy()
+            if self.mode == "alt":
+                return tree if self.k % 2 else trees[self.k % len(trees)].copy()
+            return trees[self.k % len(trees)].copy()
+
+        def sample(self, old, k, n):
+            self.log.append(self.name)
+            return old
+
+    n = 0
+    for modes in itertools.product(["same", "copy", "diff", "alt"], repeat=2):
+        for (D, P, sub_p, conc, iters, thin, burnin) in [(1, 1, 0.0, False, 3, 1, 2), (2, 1, 1.0, True, 3, 2, 0), (0, 2, 0.0, True, 2, 1, 1), (1, 0, 1.0, False, 2, 1, 1)]:
+            log = []
+            pg_mode, mv_mode = modes
+            sh = R.SamplersHolder(Stub("dp", log, mv_mode), Stub("prg", log, mv_mode), Stub("conc", log, "same"), Stub("burnin", log, pg_mode), Stub("tree", log, pg_mode), Stub("subtree", log, pg_mode))
+            td = make_tree_dist(1.0)
+            rng = np.random.default_rng(1)
+            with contextlib.redirect_stdout(io.StringIO()):
+                t0 = R._run_burnin(burnin, float("inf"), D, P, 100, sh, Timer(), trees[0].copy(), td, 0)
+                res = R._run_main_sampler(conc, data, float("inf"), iters, D, P, 100, sh, ["s"], thin, Timer(), t0, td, 0, rng, sub_p)
+            expect = []
+            for _ in range(burnin):
+                expect += ["burnin"] + ["dp"] * D + ["prg"] * P
+            for _ in range(iters):
+                expect += ["subtree" if sub_p >= 1.0 else "tree"] + ["dp"] * D + ["prg"] * P + (["conc"] if conc else [])
+            n += 1
+            ctx.case(key=("sweep", modes, D, P, sub_p, conc, iters, thin, burnin), nontrivial=True)
+            if log != expect:
+                ctx.fail("C04:run._run_main_sampler:sweep-composition", "the sequence of moves in a sweep depends on what the moves return (or is not the documented composition)",
+                         {"stub_modes": modes, "num_samples_data_point": D, "num_samples_prune_regraph": P, "subtree_update_prob": sub_p,
+                          "concentration_update": conc, "iters": iters, "burnin": burnin, "observed_calls": log, "expected_calls": expect})
+            its = [e["iter"] for e in res["trace"]]
+            exp_its = [0] + [i for i in range(iters) if i % thin == 0]
+            if its != exp_its:
+                ctx.fail("C04:run._run_main_sampler:trace-iters", "recorded iterations %r, expected %r" % (its, exp_its), {"thin": thin, "iters": iters})
+    ctx.count("sweep_structure_scripts", n)
+
+
 def run(ctx):
     coq.check_property_file(ctx)
+    sweep_structure(ctx)
     ctx.rule = (
         "exact transition matrix (every random outcome enumerated) of DataPointSampler.sample_tree (outlier option off/on, library and run wiring), "
         "PruneRegraphSampler.sample_tree and ParticleGibbsSubtreeSampler.sample_tree from EVERY start tree over 2-3 (thorough: 4 for the "
